@@ -20,6 +20,10 @@ def run(ctx):
     mpg.header_layout(ctx, L)
     T.hash_inj(ctx, L)
     layout.lut_legal(ctx, L)
+    ctx.rule("R-DELIVER-ARGS", "single-frame (non multi-PG) delivery on the FD stack hands listeners the frame's own fields", floor=2)
+    layout.deliver_args(ctx, L)
     mpg.misc(ctx, L)
+    ctx.rule("R-MPG-COPY", "a buffered group holds its own copy of the payload and its length", floor=1)
+    mpg.copy_rule(ctx, L)
     TM.wake(ctx, L, tables=("_multi_pg_snd_buffer",), funcs=(L.send_pgn,))
     return "multi-PG packing arithmetic, header layout, keying, padding and deadline handling decided on j1939_22.py"
